@@ -1,3 +1,143 @@
-import Amgcl.Model.SmoothedAggregation
+import Amgcl.Proofs.AggrGraph
+import Amgcl.Proofs.TentativeProlongation
+/-!
+# C04 — interpolation is exact on the near-null space; aggregates partition the grid
+
+Only property theorems live here (helpers: `Amgcl/Proofs/{PlainAggregates,Renumber,AggrCount,AggrGraph,…}.lean`).
+Models: `Amgcl/Model/{PlainAggregates,PointwiseMatrix,PointwiseAggregates,TentativeProlongation,Aggregation,
+SmoothedAggregation}.lean`, tied to /repo by `harness/h_coarsening.cpp`.
+-/
 namespace Amgcl.C04
+open Amgcl Amgcl.Coarsening
+
+/-! ## Aggregates partition the grid -/
+
+/-- **Partition**, for every sparsity pattern and *every* strength-flag array (`G` = per row the stored
+`(column, flag)` pairs): when `plain_aggregates` returns (does not throw `empty_level`),
+* a row without a flagged entry gets `removed = -2` (it belongs to no aggregate),
+* a row with a flagged entry gets exactly one aggregate number `id i ∈ [0, count)`,
+* every number `0 … count-1` is used (aggregates are non-empty, the numbering is contiguous). -/
+theorem aggregates_partition (G : SGraph) (count : Nat) (id : Array Int)
+    (h : aggregatesOfGraph G = .ok (count, id)) :
+    id.size = G.size ∧
+    (∀ i, i < G.size →
+      (G.hasStrong i = false → id.getD i 0 = -2) ∧
+      (G.hasStrong i = true → 0 ≤ id.getD i 0 ∧ id.getD i 0 < (count : Int))) ∧
+    (∀ a, a < count → ∃ i, i < G.size ∧ id.getD i 0 = (a : Int)) := by
+  obtain ⟨hpos, heq⟩ := aggregatesOfGraph_ok G count id h
+  obtain ⟨hsz, hsp⟩ := aggregateIds_spec G
+  obtain ⟨h1, h2, h3, h4, _⟩ := renumber_partition _ hpos _ (idsOK_aggregateIds G)
+  have hc : count = (renumber (aggregateIds G).1 (aggregateIds G).2).1 := congrArg Prod.fst heq
+  have hi : id = (renumber (aggregateIds G).1 (aggregateIds G).2).2 := congrArg Prod.snd heq
+  subst hc hi
+  rw [hsz] at h1 h2 h3 h4
+  refine ⟨h1, fun i hi => ⟨fun hs => h2 i hi ((hsp i hi).1 hs), fun hs => h3 i hi ((hsp i hi).2 hs).1⟩, h4⟩
+
+/-- the only other outcome is `empty_level`, thrown exactly when no row has a flagged entry -/
+theorem aggregates_empty_level_iff (G : SGraph) :
+    aggregatesOfGraph G = .emptyLevel ↔ ∀ i, i < G.size → G.hasStrong i = false :=
+  aggregatesOfGraph_emptyLevel_iff G
+
+/-- **Coarsening strictly reduces the size** (termination argument of the hierarchy build): if no diagonal entry
+is flagged strong — which `strongConnections` guarantees through its `c != i` — the number of aggregates is
+smaller than the number of rows. -/
+theorem count_lt_n_graph (G : SGraph) (hwf : G.WF) (hod : G.OffDiag) (count : Nat) (id : Array Int)
+    (h : aggregatesOfGraph G = .ok (count, id)) : count < G.size :=
+  count_lt_size G hwf hod count id h
+
+section matrix
+variable {K : Type} [Mul K] [Zero K] [LT K] [DecidableLT K]
+
+/-- what `plain_aggregates` does for a matrix: the flags are `(c ≠ i) ∧ epsSq·a_ii·a_cc < a_ic²` entry by entry
+(in exactly this form), and `(count, id)` partition the rows as in `aggregates_partition`. -/
+theorem plain_aggregates_partition (epsSq : K) (A : CRS K) (agg : Aggregates)
+    (h : plainAggregates epsSq A = .ok agg) :
+    agg.strong = strongConnections epsSq A ∧
+    (∀ i, i < A.nrows → agg.strong.getD i [] =
+      (A.row i).map (fun cv => decide (cv.1 ≠ i) &&
+        decide (epsSq * (diagonal A).getD i 0 * (diagonal A).getD cv.1 0 < cv.2 * cv.2))) ∧
+    agg.id.size = A.nrows ∧
+    (∀ i, i < A.nrows →
+      ((agg.strong.getD i []).any id = false → agg.id.getD i 0 = -2) ∧
+      ((agg.strong.getD i []).any id = true → 0 ≤ agg.id.getD i 0 ∧ agg.id.getD i 0 < (agg.count : Int))) ∧
+    (∀ a, a < agg.count → ∃ i, i < A.nrows ∧ agg.id.getD i 0 = (a : Int)) := by
+  unfold plainAggregates at h
+  simp only at h
+  split at h
+  · rename_i ci hci
+    injection h with h
+    subst h
+    simp only
+    obtain ⟨h1, h2, h3⟩ := aggregates_partition _ ci.1 ci.2 hci
+    rw [zipGraph_size] at h1 h2 h3
+    refine ⟨trivial, fun i hi => ?_, h1, fun i hi => ?_, h3⟩
+    · rw [strongConnections_getD epsSq A i hi]; rfl
+    · rw [← strongGraph_hasStrong epsSq A i hi]; exact h2 i hi
+  · exact absurd h (by simp)
+  · exact absurd h (by simp)
+
+/-- `count < n` for every square well-formed matrix and every `eps_strong` -/
+theorem count_lt_n (epsSq : K) (A : CRS K) (hA : A.WF) (hsq : A.ncols = A.nrows) (agg : Aggregates)
+    (h : plainAggregates epsSq A = .ok agg) : agg.count < A.nrows := by
+  unfold plainAggregates at h
+  simp only at h
+  split at h
+  · rename_i ci hci
+    injection h with h
+    subst h
+    simp only
+    have := count_lt_size _ (zipGraph_wf A hA hsq _) (strongGraph_offDiag epsSq A) ci.1 ci.2 hci
+    rwa [zipGraph_size] at this
+  · exact absurd h (by simp)
+  · exact absurd h (by simp)
+
+end matrix
+
+/-! ## Tentative prolongation (no near-null space supplied: the constant vector) -/
+
+section ptent
+open Finset
+variable {K : Type} [Semiring K]
+
+/-- **`P_tent` columns**: `P_tent` is `n × naggr`; row `i` holds the single entry `(id i, 1)` when `id i ≥ 0` and is
+empty otherwise, for *every* id array.  Hence the columns have pairwise disjoint supports, `P_tentᵀ P_tent` is
+diagonal, and `P_tent · 1` is the indicator vector of the aggregated rows (`P_tent` reproduces the constant vector
+exactly on aggregated rows). -/
+theorem ptent_columns (n naggr : Nat) (id : Array Int) :
+    (tentativeProlongation n naggr id : CRS K).nrows = n ∧
+    (tentativeProlongation n naggr id : CRS K).ncols = naggr ∧
+    (∀ i, i < n → (tentativeProlongation n naggr id : CRS K).row i =
+        if id.getD i aggrRemoved ≥ 0 then [((id.getD i aggrRemoved).toNat, (1 : K))] else []) ∧
+    (∀ i c, (tentativeProlongation n naggr id : CRS K).get i c =
+        if i < n ∧ id.getD i aggrRemoved = (c : Int) then 1 else 0) ∧
+    (∀ i c c', c ≠ c' → (tentativeProlongation n naggr id : CRS K).get i c = 0 ∨
+        (tentativeProlongation n naggr id : CRS K).get i c' = 0) ∧
+    (∀ c c', c ≠ c' → ∑ i ∈ range n, (tentativeProlongation n naggr id : CRS K).get i c *
+        (tentativeProlongation n naggr id : CRS K).get i c' = 0) ∧
+    (∀ i, i < n → id.getD i aggrRemoved < (naggr : Int) →
+        ∑ c ∈ range naggr, (tentativeProlongation n naggr id : CRS K).get i c =
+          if id.getD i aggrRemoved ≥ 0 then 1 else 0) := by
+  have hdis : ∀ i c c', c ≠ c' → (tentativeProlongation n naggr id : CRS K).get i c = 0 ∨
+      (tentativeProlongation n naggr id : CRS K).get i c' = 0 := by
+    intro i c c' hne
+    rw [ptent_get, ptent_get]
+    by_cases h : i < n ∧ id.getD i aggrRemoved = (c : Int)
+    · right; rw [if_neg]; rintro ⟨_, h'⟩; exact hne (by have := h.2; omega)
+    · left; rw [if_neg h]
+  refine ⟨ptent_nrows n naggr id, rfl, fun i hi => ptent_row n naggr id i hi, fun i c => ptent_get n naggr id i c,
+    hdis, fun c c' hne => ?_, fun i hi hlt => ?_⟩
+  · apply sum_eq_zero
+    intro i _
+    rcases hdis i c c' hne with h | h <;> rw [h] <;> simp
+  · simp only [ptent_get]
+    by_cases h0 : id.getD i aggrRemoved ≥ 0
+    · rw [if_pos h0, sum_eq_single_of_mem (id.getD i aggrRemoved).toNat (mem_range.2 (by omega))]
+      · rw [if_pos ⟨hi, by omega⟩]
+      · intro c _ hc; rw [if_neg]; rintro ⟨_, h⟩; exact hc (by omega)
+    · rw [if_neg h0]
+      apply sum_eq_zero
+      intro c _; rw [if_neg]; rintro ⟨_, h⟩; omega
+
+end ptent
+
 end Amgcl.C04
